@@ -14,7 +14,10 @@ pub(crate) fn impl_sqrt(n: &BigUint, scale: i64, ctx: &Context) -> BigDecimal {
     let prec = ctx.precision().get();
     let extra_rounding_digit_count = 5;
     let wanted_digits = 2 * (prec + extra_rounding_digit_count);
-    let exponent = wanted_digits.saturating_sub(num_digits) + u64::from(scale_diff.is_odd());
+    let shift = wanted_digits.saturating_sub(num_digits);
+    // the scale of the shifted radicand must be even for its integer root
+    // to carry the digits of the decimal root
+    let exponent = shift + u64::from((i128::from(scale) + i128::from(shift)).is_odd());
     let sqrt_digits = (n * ten_to_the_uint(exponent)).sqrt();
 
     // Calculate the scale of the result
